@@ -186,7 +186,7 @@ Definition chk_m (c : mcase) : nat :=
 
 (* ---- histories ---- *)
 Inductive hop := HW (p : pos) (i : nat) (f : option nat) | HR (p : pos) (d : nat) (mm : option nat) (f : option nat).
-Inductive robs := ONone | OErr | OImg (m : nat) (h w : Z) (d : list Z) | OConst (m : nat) (h w : Z) (v : Z) | OLossy (h w : Z).
+Inductive robs := ONone | OErr | OImg (m : nat) (h w : Z) (d : list Z) | OConst (m : nat) (h w : Z) (v : Z) | OLossy (h w : Z) | OBig.
 Record hcase := mkH { h_dflt : nat; h_pool : list (nat * Z * Z * list Z);
                       h_init : list (pos * nat * nat); h_ops : list hop;
                       h_reads : list robs; h_final : list (pos * nat * robs) }.
@@ -813,8 +813,8 @@ def g_robs(o):
         return f"(OConst {g_nat(MODES.index(o[1]))} {g_Z(o[2])} {g_Z(o[3])} {g_Z(o[4])})"
     if o[0] == "img":
         return f"(OImg {g_nat(MODES.index(o[1]))} {g_Z(o[2])} {g_Z(o[3])} {g_zlist(o[4])})"
-    # 'big': something the model never returns
-    return f"(OImg {g_nat(MODES.index(o[1]))} {g_Z(o[2])} {g_Z(o[3])} [])"
+    # 'big': a large non-constant image, something the model never returns
+    return "OBig"
 
 
 def g_hcase(case, obs):
